@@ -12,6 +12,8 @@ import (
 	"net/url"
 	"sort"
 
+	"github.com/go-chi/chi/v5"
+
 	"github.com/sassoftware/relic/v8/config"
 	"github.com/sassoftware/relic/v8/internal/authmodel"
 	"github.com/sassoftware/relic/v8/lib/audit"
@@ -26,9 +28,9 @@ var vhTouchedKey string
 
 type vhToken struct{}
 
-func (vhToken) Close() error                     { return nil }
-func (vhToken) Ping(ctx context.Context) error   { return nil }
-func (vhToken) Config() *config.TokenConfig      { return nil }
+func (vhToken) Close() error                   { return nil }
+func (vhToken) Ping(ctx context.Context) error { return nil }
+func (vhToken) Config() *config.TokenConfig    { return nil }
 func (vhToken) GetKey(ctx context.Context, keyName string) (token.Key, error) {
 	vhTokenTouched = true
 	vhTouchedKey = keyName
@@ -220,4 +222,30 @@ func VH_C04_ListKeys() {
 		}
 	}
 	vhReach("listed") // vh:require listed
+}
+
+// H04.b (certificate disclosure): /keys/{key} touches the token only for a
+// caller entitled to the resolved key; otherwise 403 before any token call.
+func VH_C04_GetKeyAuthorization() {
+	conf := vhConfig(false)
+	user := &vhUser{roles: vhRoles("user-role")}
+	reqName := append(append([]string{}, vhNames...), "nope")[vhConcretize(vhInt("request", 0, len(vhNames)), 4)]
+	s := &Server{Config: conf, tokens: map[string]token.Token{"t0": vhToken{}}}
+	rctx := chi.NewRouteContext()
+	rctx.URLParams.Add("key", reqName)
+	req := (&http.Request{Method: "GET", URL: &url.URL{Path: "/keys/" + reqName}}).WithContext(context.WithValue(context.Background(), chi.RouteCtxKey, rctx))
+	vhTokenTouched = false
+	rw, err := vhServe(user, s.serveGetKey, req)
+	vhReach("served") // vh:require served
+	want := vhResolve(conf, reqName)
+	entitled := want != nil && vhShares(want.Roles, user.roles)
+	if vhTokenTouched {
+		vhReach("token-touched") // vh:require token-touched
+		vhAssert(entitled, "certificate-disclosed-only-to-entitled-caller")
+		vhAssert(vhTouchedKey == want.Name(), "token-asked-for-the-resolved-key")
+	} else {
+		vhAssert(!entitled, "entitled-caller-not-refused")
+		vhAssert(err != nil, "refusal-is-an-error")
+	}
+	vhAssert(rw.writes == 0, "no-body-without-key")
 }
